@@ -15,10 +15,7 @@ type (
 	Locker = realsync.Locker
 	Map    = realsync.Map
 	Pool   = realsync.Pool
-	Cond   = realsync.Cond
 )
-
-func NewCond(l Locker) *Cond { return realsync.NewCond(l) }
 
 func OnceFunc(f func()) func() { return realsync.OnceFunc(f) }
 
